@@ -420,7 +420,11 @@ def run(ctx: Context) -> None:
                 elt = comp[0][1]
                 ok_s = (isinstance(elt, ast.Subscript) and isinstance(elt.slice, ast.Name) and elt.slice.id == comp[0][2].id
                         and dotted(elt.value) == 'self.dataset.sizes' and flow.canon(s_core) == flow.canon(d_core))
-            ctx.check('R03.1', ok_s, "sizes = [dataset.sizes[d] for d in <the same dimensions>] in order", fi, call,
+            if not ok_s and all(l[0] == 'conv' for l in s_layers) and isinstance(s_core, ast.Subscript) \
+                    and flow.canon(s_core.value) == ('attr', ('param', 'self'), 'grid_shape') and isinstance(d_core, ast.Subscript):
+                # the convention's own shape of the same kind (R01.2 ties grid_shape to grid_dimensions, kind by kind and in order)
+                ok_s = flow.canon(s_core.slice) == flow.canon(d_core.slice)
+            ctx.check('R03.1', ok_s, "sizes = [dataset.sizes[d] for d in <the same dimensions>] in order, or the convention's grid_shape of the same kind", fi, call,
                       construct=f"sizes={norm_text(flow.resolve(sizes))}")
             ctx.check('R03.1', flow.canon(call.args[0] if call.args else kwarg(call, 'data_array')) == ('param', da),
                       "the array wound is the argument itself", fi, call, construct='array argument')
@@ -466,7 +470,9 @@ VARIANTS = [
     V('C03', 'values-cast', _U, "    new_data = data_array.values.reshape(new_shape)\n    return xarray.DataArray(data=new_data, dims=new_dims)", "    new_data = data_array.values.astype(float).reshape(new_shape)\n    return xarray.DataArray(data=new_data, dims=new_dims)", 'R03.2'),
     V('C03', 'splice-different-index', _U, "    new_shape = splice_tuple(data_array.shape, dimension_index, sizes)", "    new_shape = splice_tuple(data_array.shape, len(data_array.shape) - 1, sizes)", 'R03.1'),
     V('C03', 'splice-off-by-one', _U, "    return t[:index] + tuple(values) + t[index:][1:]", "    return t[:index] + tuple(values) + t[index:][2:]", 'R03.1'),
-    V('C03', 'sizes-reversed', _B, "        sizes = [self.dataset.sizes[dim] for dim in dimensions]", "        sizes = [self.dataset.sizes[dim] for dim in reversed(dimensions)]", 'R03.1'),
+    V('C03', 'sizes-reversed', _B, "        sizes = list(self.grid_shape[grid_kind])", "        sizes = list(reversed(self.grid_shape[grid_kind]))", 'R03.1'),
+    V('C03', 'sizes-of-default-kind', _B, "        sizes = list(self.grid_shape[grid_kind])", "        sizes = list(self.grid_shape[self.default_grid_kind])", 'R03.1'),
+    V('C03', 'benign-sizes-from-dataset', _B, "        sizes = list(self.grid_shape[grid_kind])", "        sizes = [self.dataset.sizes[dim] for dim in dimensions]", None),
     V('C03', 'wind-default-first-dim', _B, "            linear_dimension = data_array.dims[-1]", "            linear_dimension = data_array.dims[0]", 'R03.5'),
     V('C03', 'wind-name-beats-axis', _B, "        if axis is not None:\n            linear_dimension = data_array.dims[axis]\n        elif linear_dimension is None:", "        if axis is not None and linear_dimension is None:\n            linear_dimension = data_array.dims[axis]\n        elif linear_dimension is None:", 'R03.5'),
     V('C03', 'grid-kind-falls-back', _B, "        raise ValueError(\"Unknown grid kind\")", "        return self.default_grid_kind", 'R03.4'),
